@@ -66,6 +66,12 @@ def make_scenario(case):
     files, ids = graphs.render_graph(g, kinds, pars, pkgs,
                                      args={int(k): v for k, v in (case.get("args") or {}).items()},
                                      options={int(k): v for k, v in (case.get("options") or {}).items()})
+    if case.get("as_group"):
+        # node 0 = the combine of a run_experiment_group whose instances are nodes 1..n-1 (all experiments, flags from `pars`):
+        # the same graph, written with the macro
+        assert kinds[0] == "combine" and all(k == "exp" for k in kinds[1:]) and all(tuple(d) == () for d in g[1:]), case
+        insts = ", ".join('ExperimentInstance(name="t%d"%s)' % (i, ", parallelizable=True" if pars[i] else "") for i in g[0])
+        files = {"COND": 'run_experiment_group(name="t0", run="./inst.sh", experiments=[%s])\n' % insts}
     beh = {}
     pre_tree = {}
     rows = []
